@@ -55,6 +55,17 @@ Proof.
   destruct (whiles st) as [|[? ?] ?]; simpl; auto.
 Qed.
 
+Lemma read_vars_flags code vs : forall st,
+  match read_vars code st vs with RdOk st' => same_flags st st' | RdErr st' _ => same_flags st st'
+                                | RdUnmodelled => True end.
+Proof.
+  induction vs as [|v vs IH]; intros st; simpl; [apply same_flags_refl|].
+  destruct (read_item code (dptr st)) as [[z dp']|]; [|apply same_flags_refl].
+  destruct (negb (exact24 z)); [exact I|]. destruct (in16 z); [|apply same_flags_refl].
+  specialize (IH (set_dptr (set_var st v z) dp')).
+  destruct (read_vars code (set_dptr (set_var st v z) dp') vs); auto; destruct IH as [Ha Hb]; split; assumption.
+Qed.
+
 Lemma pstep_flags code st s : nth_error code (pc st) = Some s -> (forall r, s <> SResume r) ->
   pres_ok (same_flags st) (pstep code st).
 Proof.
@@ -64,7 +75,7 @@ Proof.
   destruct s.
   - (* line header *) exact R.
   - (* end of program *) destruct (resume_at (ds st)); exact I.
-  - (* PRINT *) apply pwith_val_ok; [exact R | intros z; exact R].
+  - (* PRINT *) destruct (soft_div (ds st) e); [exact R|]. apply pwith_val_ok; [exact R | intros z; exact R].
   - (* LET *) apply pwith_val_ok; [exact R | intros z].
     destruct (in16 z); [split; reflexivity | exact R].
   - (* FOR *)
@@ -108,6 +119,12 @@ Proof.
     + destruct (handling (ds st)) eqn:Eh; [exact I | split; simpl; congruence].
     + destruct (find_line code n); [split; reflexivity | exact R].
   - exfalso. eapply Hs. reflexivity.
+  - (* READ *)
+    pose proof (read_vars_flags code vs st) as Hr. destruct (read_vars code st vs); [|exact Hr|exact I].
+    destruct Hr as [Ha Hb]. split; simpl; assumption.
+  - (* DATA *) exact R.
+  - (* RESTORE *)
+    destruct n; [apply pjump_ok; [exact R | intros j; split; reflexivity] | split; reflexivity].
 Qed.
 
 (* ------------------------------------------------------------------ the machine follows the reference *)
@@ -367,7 +384,7 @@ Proof.
     { unfold pstep. rewrite E. cbv zeta.
       destruct s; try (left; left; reflexivity); try (left; right; eexists; reflexivity); right;
         try exact I.
-      - apply pwith_val_ns; intros; exact I.
+      - destruct (soft_div (ds st) e); [exact I|]. apply pwith_val_ns; intros; exact I.
       - apply pwith_val_ns; intros z; destruct (in16 z); exact I.
       - apply pwith_int_ns; intros va. apply pwith_int_ns; intros vb. apply pwith_int_ns; intros vs.
         destruct (scan_next _ _ _) as [[j k]|]; [|exact I]. destruct (negb _); [exact I|].
@@ -385,7 +402,9 @@ Proof.
       - apply pwith_int_ns; intros z. destruct (negb _); [exact I|]. destruct (_ && _); [|exact I].
         apply pjump_ns; intros; exact I.
       - apply pwith_int_ns; intros z. destruct (negb _); exact I.
-      - destruct (resume_at (ds st)); [|exact I]. destruct r; try exact I. apply pjump_ns; intros; exact I. }
+      - destruct (resume_at (ds st)); [|exact I]. destruct r; try exact I. apply pjump_ns; intros; exact I.
+      - destruct (read_vars code st vs); exact I.
+      - destruct n; [apply pjump_ns; intros; exact I | exact I]. }
     destruct Hns as [[-> | [n ->]] | Hns]; [left; reflexivity | right; exists n; reflexivity |].
     rewrite H in Hns. destruct Hns.
   - unfold pstep in H. rewrite E in H. discriminate.
@@ -431,3 +450,38 @@ Proof.
   intros Hs Hh Hp Ho Hf. apply raise_traps; auto.
   rewrite Hh. exact (stop_leaves_handler_mode code st c l Hs).
 Qed.
+
+(* ------------------------------------------------------------------ READ: errors belong to the READ line *)
+
+(* whatever a READ statement raises (Out of DATA, Overflow of an assignment - for the first or a later variable,
+   with the DATA item on any line), the error position is the READ statement itself *)
+Theorem read_raises_at_read code st vs st' c epos :
+  nth_error code (pc st) = Some (SRead vs) -> pstep code st = PRaise st' c epos -> epos = pc st.
+Proof.
+  intros H Hp. unfold pstep in Hp. rewrite H in Hp. cbv zeta in Hp.
+  destruct (read_vars code st vs); inversion Hp; reflexivity.
+Qed.
+
+Theorem read_overflow_raises code st v vs z dp' :
+  nth_error code (pc st) = Some (SRead (v :: vs)) -> read_item code (dptr st) = Some (z, dp') ->
+  exact24 z = true -> in16 z = false -> pstep code st = PRaise st flow_E_OVERFLOW (pc st).
+Proof.
+  intros H Hr Hx Hz. unfold pstep. rewrite H. cbv zeta. simpl. rewrite Hr, Hx, Hz. reflexivity.
+Qed.
+
+Theorem read_out_of_data code st v vs :
+  nth_error code (pc st) = Some (SRead (v :: vs)) -> read_item code (dptr st) = None ->
+  pstep code st = PRaise st flow_E_OUT_OF_DATA (pc st).
+Proof. intros H Hr. unfold pstep. rewrite H. cbv zeta. simpl. rewrite Hr. reflexivity. Qed.
+
+
+(* RUN starts from the state of a fresh session: nothing of the previous command survives - variables, stacks,
+   DATA pointer, ON ERROR line, error registers, and the switch that makes math errors hard (fixes/D23e) *)
+Theorem run_command_resets prog st :
+  start_command prog st CRun = (prog ++ [SEndProg], init_at 0).
+Proof. reflexivity. Qed.
+
+(* a direct line keeps everything but the position *)
+Theorem direct_command_keeps prog st line :
+  start_command prog st (CDirect line) = (prog ++ SEndProg :: line, set_pc st (S (length prog))).
+Proof. reflexivity. Qed.
